@@ -35,7 +35,11 @@ REQUIRED_THEOREMS = ['Yaql.Props.C14.' + n for n in (
     'cost_tight_takeWhile cost_tight_indexWhere cost_tight_indexOf cost_tight_first cost_tight_any cost_tight_all '
     'cost_tight_zip cost_tight_accumulate cost_tight_accumulate_seed cost_tight_slice linSlice_pulls cost_tight_append '
     'cost_tight_member cost_tight_selectMany cost_tight_join linJoin_pulls cost_tight_insert cost_tight_replace '
-    'cost_delete_le keptSt_pulls').split()] + ['Yaql.Props.C14Gen.' + n for n in (
+    'cost_delete_le keptSt_pulls '
+    'causal_joinInner causal_zipAt causal_zipLongestAt causal_splice causal_selectManyInner causal_secondary '
+    'runOn_of_start_stop cost_tight_joinInner linJoinInner_cost joinInner_empty_outer joinInner_single_pass '
+    'cost_tight_zipAt linZipAt_pulls cost_tight_splice splice_untouched spliceReplaceMany_none spliceReplaceMany_spec '
+    'spliceInsertMany_parts cost_tight_selectManyInner selectManyInner_empty').split()] + ['Yaql.Props.C14Gen.' + n for n in (
         'streaming_ops_lazy streaming_ops_all_found streaming_ops_use_source').split()]
 TRUSTED = ['instrumentation: pulls are counted in __next__ of the host iterator handed to evaluate(data=...), lambda '
            'applications by a registered tick() evaluated first in every lambda (`tick() and (<lambda>)`)',
